@@ -886,8 +886,11 @@ def _pyro_obj_to_auto_proxy(obj: Any) -> Any:
     """reduce function that automatically replaces Pyro objects by a Proxy"""
     daemon = getattr(obj, "_pyroDaemon", None)
     if daemon:
-        # only return a proxy if the object is a registered pyro object
-        return daemon.proxyFor(obj)
+        # only return a proxy if the object is (still) a registered pyro object, or an instance of a registered class;
+        # the _pyro attributes alone don't tell: they remain after unregister(id) and after a forced re-registration of the id
+        registered = daemon._registered(getattr(obj, "_pyroId", None))
+        if registered is obj or (inspect.isclass(registered) and isinstance(obj, registered)):
+            return daemon.proxyFor(obj)
     return obj
 
 
